@@ -1532,7 +1532,10 @@ def _check_bad_rsp(run, world, mod):
                 # (the handler may return True itself or fall through to a
                 # `return True` that follows: `with suppress(...)`)
                 from ..cfg import CFG as _CFG, default_may_raise as _dmr
-                hcfg = _CFG(fn, may_raise=_dmr, name=F)
+                # (a property read can raise: every statement of the try
+                # body may)
+                hcfg = _CFG(fn, may_raise=lambda x_: x_.kind in (
+                    "stmt", "test"), name=F)
                 starts = [x for x in hcfg.reachable if x.kind == "except"
                           and x.ast is n]
                 okh = bool(starts)
